@@ -452,6 +452,14 @@ def raw_node(rng, depth):
         return ('leaf', ('PI', rng.choice(['php', 'xml', 'x', 'x>']),
                          rng.choice(['echo 1', '', 'a="b"', 'a><script>alert(1)</script', '>', 'x ?><img src=x onerror=alert(1)><?y '])))
     if r < 0.94:
+        if rng.random() < 0.5:
+            # a `>` in the name or an identifier (a system identifier may hold it in XML): an HTML
+            # parser ends the declaration there (finding C06-doctype-markup, repaired); also quotes
+            evil = rng.choice(['x\'><script>alert(1)</script>', 'x"><script>alert(1)</script>', '>', 'a>b', 'p"q', "p'q\"r",
+                               '><img src=x onerror=alert(1)>'])
+            k = rng.randrange(3)
+            return ('leaf', ('DT', evil if k == 0 else 'html', evil if k == 1 else rng.choice([None, '-//W3C//DTD XHTML 1.0 Strict//EN']),
+                             evil if k == 2 else rng.choice([None, 'x.dtd'])))
         return ('leaf', ('DT', 'html', rng.choice([None, '-//W3C//DTD XHTML 1.0 Strict//EN']), rng.choice([None, 'x.dtd'])))
     if r < 0.96:
         return ('leaf', ('NS', rng.choice(['', 'svg']), 'http://www.w3.org/2000/svg'))
